@@ -94,42 +94,6 @@ func (e *Ev) evTypeAssert(x *ast.TypeAssertExpr, commaOk bool) Val {
 	return val
 }
 
-// --- heap: not yet part of the byte dialect ---------------------------------
-
-func (p *Prog) heapHasField(elem, name string) bool { return false }
-
-func (e *Ev) heapRead(r VRef, field string, n ast.Node) Val {
-	e.unsupp(n, "heap read %s.%s is outside the modelled subset", r.Elem, field)
-	return nil
-}
-
-func (e *Ev) heapMapLookup(m VHeapMap, key Val, commaOk bool, n ast.Node) Val {
-	e.unsupp(n, "heap map lookup is outside the modelled subset")
-	return nil
-}
-
-func (e *Ev) evAddr(x *ast.UnaryExpr) Val {
-	e.unsupp(x, "address-of is outside the modelled subset")
-	return nil
-}
-
-func (e *Ev) evStar(x *ast.StarExpr) Val {
-	e.unsupp(x, "pointer dereference is outside the modelled subset")
-	return nil
-}
-
-func (e *Ev) havocHeapFor(con *Contract) {}
-
-func (fx *FuncCtx) emptyHeapMap(t *types.Map) Val {
-	panic(unsupported{"make(map) is outside the modelled subset"})
-}
-
-func (fx *FuncCtx) heapMapLen(m VHeapMap) Term {
-	panic(unsupported{"len(map) is outside the modelled subset"})
-}
-
-func (e *Ev) evHeapGhost(name string, x *ast.CallExpr) (Val, bool) { return nil, false }
-
 // VRangeTable is a package-level *unicode.RangeTable given by its ranges (stride 1).
 type VRangeTable struct {
 	Name   string
